@@ -769,6 +769,38 @@ fn explore(cfg: &Cfg) -> (Stats, u64, u64) {
             }
         }
     }
+    // tag scopes: a token, then tag_node under nested checkpoints that close in every way
+    // (success, plain restore, failing sequence), an absorbed failure next to it, then more parsing
+    {
+        let id = |x: Op| x;
+        let seq = |x: Op| Op::Seq(Box::new(x));
+        let wraps: Vec<Box<dyn Fn(Op) -> Op>> = vec![
+            Box::new(id), Box::new(seq), Box::new(|x| Op::Restore(Box::new(x))), Box::new(|x| Op::Opt(Box::new(x))), Box::new(|x| Op::Seq(Box::new(Op::Seq(Box::new(x))))),
+            Box::new(|x| Op::Restore(Box::new(Op::Seq(Box::new(x))))), Box::new(|x| Op::Push(Box::new(x))),
+        ];
+        let absorbed: Vec<Op> = vec![
+            Op::Opt(Box::new(seq(Op::Str("zzz")))),
+            Op::Opt(Box::new(Op::Restore(Box::new(Op::Str("zzz"))))),
+            Op::Opt(Box::new(seq(Op::AndThen(Box::new(Op::Tag("u")), Box::new(Op::Str("zzz")))))),
+            Op::Rep(Box::new(seq(Op::AndThen(Box::new(Op::Tag("u")), Box::new(Op::Str("zzz")))))),
+            Op::OrElse(Box::new(seq(Op::AndThen(Box::new(Op::Tag("u")), Box::new(Op::Str("zzz"))))), Box::new(Op::Str(""))),
+            Op::Str(""),
+        ];
+        let at = |a: Op, b: Op| Op::AndThen(Box::new(a), Box::new(b));
+        for outer in &wraps {
+            for inner in &wraps {
+                for ab in &absorbed {
+                    for tail in [Op::Str("b"), Op::Str("x"), Op::Rule(2, Box::new(Op::Skip(1)))] {
+                        for first in [Op::Rule(1, Box::new(Op::Str("a"))), Op::Rule(1, Box::new(Op::Rule(2, Box::new(Op::Str("a")))))] {
+                            let body = at(at(inner(Op::Tag("t")), ab.clone()), tail.clone());
+                            work.push(("tag-scopes".into(), at(first.clone(), Op::Opt(Box::new(outer(body.clone()))))));
+                            work.push(("tag-scopes".into(), at(first, outer(body))));
+                        }
+                    }
+                }
+            }
+        }
+    }
     // peek slices on stacks of depth 0..3
     for l in slice_leaves() {
         for pl in &pre {
